@@ -241,6 +241,10 @@ class Application(object):
         """
         if index is None:
             index = len(self.routes)
+        elif index < 0:
+            # same position list.insert() would use for the first route, so
+            # that the routes that follow stay contiguous and in order
+            index = max(len(self.routes) + index, 0)
         rf = cast_to_route_factory(entry)
 
         kwargs.setdefault('rebind_render', getattr(rf, 'rebind_render', True))
